@@ -183,7 +183,7 @@ _TAGS = {
     "listof", "elem", "listdir", "listed", "inst", "selfattr", "callres", "exc", "unknown",
     "probe", "strop", "opt", "int", "self", "hashof", "dictzip", "cmp", "not", "and", "or",
     "stem", "suffix", "bool", "setof", "readlines", "hexdigests", "hashobjs", "module",
-    "class", "func", "walk", "abspath", "orelse", "iattr", "hexdigest", "closing", "obj", "line", "slice", "arith", "rep", "direntry",
+    "class", "func", "walk", "abspath", "orelse", "iattr", "hexdigest", "closing", "obj", "line", "slice", "arith", "rep", "direntry", "lambda", "relto",
 }
 
 
